@@ -59,7 +59,7 @@ func c04(c *q.Ctx) {
 		}
 		c.Effect(cb, q.Eff{Spec: "Batch.Put", Arg: 0, Glob: "append(\"C\",p1.Transactions[].Txid)", Req: []q.Cond{{Canon: "p1.InTrunk", Sense: true}, {Canon: "ledger.(*Ledger).parallelCheckTx(*)#0[p1.Transactions[].Txid]", Sense: true}}, Exact: true, Keep: keepTx, Why: "a trunk block that carries an already-known transaction re-maps it to itself, whatever the old block's flag says", Rule: "K5"})
 		c.Effect(cb, q.Eff{Spec: "Batch.Put", Arg: 0, Glob: "append(\"C\",p1.Transactions[].Txid)", Req: []q.Cond{{Canon: "ledger.(*Ledger).parallelCheckTx(*)#0[p1.Transactions[].Txid]", Sense: false}}, Why: "a new transaction is recorded", Rule: "K6"})
-		c.Guard(cb, q.Cond{Canon: "(1 < phi{(1 + phi{0|loop})|phi{0|loop}})", Sense: true}, succ, q.Opt{})
+		c.Guard(cb, q.Cond{Canon: "(1 < phi{(1 + loop)|0|loop})", Sense: true}, succ, q.Opt{})
 		c.Effect(cb, q.Eff{Spec: "Batch.Delete", Arg: 0, Glob: "append(\"PB\",p1.Blockid)", Why: "pending copy removed with the confirmation", Rule: "K6"})
 	}
 	hf := c.Fn(led + "(*Ledger).handleFork")
@@ -73,7 +73,7 @@ func c04(c *q.Ctx) {
 		c.FieldStore(hf, "InternalBlock.InTrunk", pB, "false", "old-branch block leaves the trunk")
 		c.FieldStore(hf, "InternalBlock.NextHash", pB, "[]", "old-branch block loses its next link")
 		c.FieldStore(hf, "InternalBlock.InTrunk", qB, "true", "new-branch block and split block are in trunk")
-		c.FieldStore(hf, "InternalBlock.NextHash", qB, "phi{p3|*}", "new-branch block links to the block above it (initially the confirmed block)")
+		c.FieldStore(hf, "InternalBlock.NextHash", qB, "phi{*|p3}", "new-branch block links to the block above it (initially the confirmed block)")
 		c.Effect(hf, q.Eff{Spec: "Ledger.correctTxsBlockid", Arg: 0, Glob: qB + ".Blockid", Req: []q.Cond{inLoop}, Why: "transactions of every new-trunk block are re-mapped to it", Rule: "K6"})
 		c.ArgIs(hf, "Ledger.correctTxsBlockid", 2, "p4", 1, "re-mapping is staged in the confirmation's batch")
 		c.Effect(hf, q.Eff{Spec: "Ledger.saveBlock", Arg: 0, Glob: pB, Req: []q.Cond{inLoop}, Why: "old-branch block persisted", Rule: "K6"})
